@@ -85,7 +85,9 @@ theorem proposer_set_schedules_event (p : Params) (ops : List Op) (o : Op) (s' :
     hypothesis that an event is scheduled): take any reachable state between blocks in which rollapp
     `ra` has a real proposer `a` (record `q`); let any number of blocks pass without a message.  Then
     the hub height advanced by that many blocks, the countdown start and the proposer are unchanged,
-    the event is again at the next slash height, and the proposer's record is `idleSeq`: slashed at the
+    the event is again at the next slash height, and the proposer's record is `idleSeq` under the
+    x/sequencer parameters in force when the idle stretch begins (`(run p ops).sqp`: the history `ops`
+    may contain any number of `MsgUpdateParams`; the stretch itself contains no message): slashed at the
     end of exactly the blocks whose height is a grid point `cdStart + N + j·I`. -/
 theorem idle_slashed_on_schedule (p : Params) (hI : 1 ≤ p.lsInterval) (ops : List Op)
     (hph : ops.foldl phaseStep (some false) = some false)
@@ -95,7 +97,7 @@ theorem idle_slashed_on_schedule (p : Params) (hI : 1 ≤ p.lsInterval) (ops : L
     (run p (ops ++ blockOps bs)).h = (run p ops).h + bs.length ∧
     (∃ r', getRa (run p (ops ++ blockOps bs)) ra = some r' ∧ r'.cdStart = r.cdStart ∧ r'.proposer = some a ∧
       r'.evH = nextSlashHeight p.lsBlocks p.lsInterval ((run p ops).h + bs.length) r.cdStart) ∧
-    getSeq (run p (ops ++ blockOps bs)) a = some (idleSeq p r.cdStart (run p ops).h bs.length q) :=
+    getSeq (run p (ops ++ blockOps bs)) a = some (idleSeq p (run p ops).sqp r.cdStart (run p ops).h bs.length q) :=
   C08.idle_slashed_on_schedule p hI ops hph ra r a q hg hp hq (real_proposer_has_event_at p ops ra r a hg hp).1 bs
 
 
@@ -124,7 +126,9 @@ theorem real_proposer_event_exact (p : Params) (hI : 1 ≤ p.lsInterval) (ops : 
     proposer, updates and forks of other rollapps, …) in which rollapp `ra` has the real proposer `a`
     with record `q`, and end the block.  Then
     * if the rollapp's event is due (`evH` = the hub height) the proposer's record becomes exactly
-      `slashOnce p q` — slashed once, on whatever its bond then is — and the hub height is a grid point
+      `slashOnce (run p ops).sqp q` — slashed once, on whatever its bond then is, with the x/sequencer
+      parameters IN FORCE at that block end (`MsgUpdateParams` may occur anywhere in `ops`, also inside the
+      current block) — and the hub height is a grid point
       `cdStart + N + j·I` of the record's then-current countdown start;
     * otherwise the record is untouched;
     * in particular at a height off that grid the proposer is never slashed. -/
@@ -132,7 +136,7 @@ theorem idle_slashed_on_schedule_interleaved (p : Params) (ops : List Op) (f : L
     (ra : Nat) (r : Rollapp) (a : Addr) (q : Seq)
     (hg : getRa (run p ops) ra = some r) (hp : r.proposer = some a) (hq : getSeq (run p ops) a = some q) :
     (r.evH = (run p ops).h →
-      getSeq (step (run p ops) (.end_ f)).1 a = some (slashOnce p q) ∧
+      getSeq (step (run p ops) (.end_ f)).1 a = some (slashOnce (run p ops).sqp q) ∧
       ∃ j, (run p ops).h = r.cdStart + p.lsBlocks + j * p.lsInterval) ∧
     (r.evH ≠ (run p ops).h → getSeq (step (run p ops) (.end_ f)).1 a = some q) ∧
     ((¬ ∃ j, (run p ops).h = r.cdStart + p.lsBlocks + j * p.lsInterval) →
@@ -175,5 +179,12 @@ example : let pre : List Op := [.createRollapp 0 9 10, .fund 1 100, .fund 2 100,
 example : let s := run C08.exParams [.createRollapp 0 9 10, .fund 1 100, .createSeq 1 0 40 true, .end_ [], .begin_ 5, .end_ [],
       .begin_ 5, .bondInc 1 20 true, .end_ []]
     s.h = 3 ∧ s.seqs.map (fun q => (q.tokens, q.dishonor)) = [(30, 2)] ∧ s.lev = [(4, 0)] := by decide
+
+-- a `MsgUpdateParams` inside the very block whose end slashes the proposer: the slash uses the NEW values
+-- (slash max(25, 40·0.5) = 25 instead of max(3, 40·0.5) = 20; liveness dishonor 7 instead of 2)
+example : let sp : SeqParams := { C08.exParams.seq with lsAbs := 25, dishonorL := 7 }
+    let s := run C08.exParams [.createRollapp 0 9 10, .fund 1 100, .createSeq 1 0 40 true, .end_ [], .begin_ 5, .end_ [],
+      .begin_ 5, .setSeqParams true sp, .end_ []]
+    s.h = 3 ∧ s.seqs.map (fun q => (q.tokens, q.dishonor)) = [(15, 7)] ∧ s.lev = [(4, 0)] := by decide
 
 end DymVerif.C08X
